@@ -280,7 +280,17 @@ func genC16(seed uint64, tier string, idx int) c16Data {
 		d.Kind = "raw"
 		n := r.Range(0, 6)
 		var lines []string
+		long := r.Bool(0.25) // lines around and beyond the reader's internal buffer sizes, content not periodic
 		for i := 0; i < n; i++ {
+			if long && r.Bool(0.5) {
+				size := kernel.Pick(r, []int{4094, 4095, 4096, 4097, 5000, 8191, 8192, 8193, 12000, 16384, 20000, 70000})
+				var sb strings.Builder
+				for k := r.Intn(1000); sb.Len() < size; k++ {
+					fmt.Fprintf(&sb, "w%d ", k*7+i)
+				}
+				lines = append(lines, sb.String()[:size])
+				continue
+			}
 			lines = append(lines, kernel.Pick(r, []string{"", "plain", "with space ", "héllo 日本", `{"not":"json"`, "tab\there", "cr\r", `"quoted"`, "1", "a\x00b"}))
 		}
 		text := strings.Join(lines, "\n")
